@@ -4,7 +4,8 @@ C10 - CID and data problems surface as cutplace errors, never as internal failur
 import ast
 
 from ..escape import ANY, EscapeAnalysis
-from ..model import walk_own
+from ..model import AnalysisError, walk_own
+from ..tablekit import where_of
 from ..tables import asserts as assert_table
 
 EXPLANATION = (
@@ -69,6 +70,8 @@ NOT_INPUT = {
 NOT_INPUT_SITES = {
     ("fields.PatternFieldFormat.__init__", "re.error", "re.compile(self.pattern, re.IGNORECASE | re.MULTILINE)"):
         "self.pattern is the output of fnmatch.translate, which escapes everything it does not understand",
+    ("fields.PatternFieldFormat.__init__", "builtins.OverflowError", "re.compile(self.pattern, re.IGNORECASE | re.MULTILINE)"):
+        "fnmatch.translate escapes braces, so the compiled text holds no repetition count that could be too large",
     ("rowio.FixedRowWriter.write_row", "builtins.UnicodeEncodeError", "self._target_stream.write(self._line_separator)"):
         "the line separator is one of the ASCII constants",
 }
@@ -165,6 +168,9 @@ def rule_escapes(ctx):
     ctx.res.analysed.update({"call_sites": escape.call_sites, "resolved_call_sites": escape.resolved_sites,
                              "fixpoint_rounds": escape.rounds})
     ctx.res.minimum("O10", 150)
+    if escape.untabled_externals:
+        raise AnalysisError("external callee(s) without an entry in tables/raisers.py (EXTERNAL or NO_RAISE): %s" % ", ".join(
+            "%s (%s)" % item for item in sorted(escape.untabled_externals.items())))
     violations = {}  # key -> (item, [entries])
     for entry, (allowed, what) in ENTRY_POINTS.items():
         model.func(entry)  # anchor
@@ -201,6 +207,63 @@ def rule_escapes(ctx):
 
 def _normalise(text):
     return " ".join(text.split())[:80]
+
+
+def rule_main_mapping(ctx):
+    """
+    O10.main: whatever leaves process() because of a CID, a data file or the arguments is answered by main() with an exit
+    code 0..3: in main's try statement the first handler that matches such an exception must not be the catch-all
+    ("something unexpected happened, the program code must be fixed", exit code 4).
+    """
+    import ast
+
+    from ..model import dotted
+
+    model = ctx.model
+    escape, _ = analysis(model)
+    main = model.func("cutplace.applications.main")
+    ctx.res.minimum("O10.main", 5)
+    tries = [node for node in walk_own(main.node) if isinstance(node, ast.Try) and any(
+        isinstance(call, ast.Call) and dotted(call.func) == "process" for inner in node.body for call in ast.walk(inner))]
+    if len(tries) != 1:
+        raise AnalysisError("main() does not call process() inside exactly one try statement")
+    handlers = []
+    for handler in tries[0].handlers:
+        if handler.type is None:
+            names = ["builtins.BaseException"]
+        else:
+            elements = handler.type.elts if isinstance(handler.type, ast.Tuple) else [handler.type]
+            names = []
+            for element in elements:
+                text = dotted(element)
+                resolved = model.resolve_dotted(main.module, text)
+                if resolved is not None and hasattr(resolved, "qualname"):
+                    names.append(resolved.qualname)
+                elif text == "EnvironmentError":
+                    names.append("builtins.OSError")
+                else:
+                    names.append("builtins." + text if "." not in text else text)
+        gives_4 = any(isinstance(n, ast.Assign) and isinstance(n.value, ast.Constant) and n.value.value == 4 for n in ast.walk(handler))
+        handlers.append((names, gives_4, handler.lineno))
+    if not any(gives_4 for _, gives_4, _ in handlers):
+        raise AnalysisError("main() has no handler that answers with exit code 4")
+    for item in escape.escapes("cutplace.applications.process"):
+        origin_function = item.origin[0].replace("cutplace.", "", 1)
+        if not _allowed(escape.lattice, item.cls, (CUTPLACE, OSERROR, "builtins.SystemExit")):
+            continue  # not an answer to an input: reported (or triaged) by O10
+        short = item.cls.replace("cutplace.errors.", "").replace("builtins.", "")
+        what = "main() answers %s from %s with an exit code below 4" % (short, origin_function)
+        first = next(((names, gives_4, line) for names, gives_4, line in handlers
+                      if any(escape.lattice.is_subclass(item.cls, name) for name in names)), None)
+        if item.cls == "builtins.SystemExit" or escape.lattice.is_subclass(item.cls, "builtins.SystemExit"):
+            ctx.res.ok("O10.main", what + " (SystemExit passes through: exit code of the argument parser)", True)
+        elif first is None or first[1]:
+            ctx.res.fail("O10.main", what, "applications.main:O10.main:%s" % item.cls, where_of(model, "cutplace.applications.main"),
+                         "%s raised at %s (%s) reaches main()'s catch-all handler: the command line answers a defect of a CID / data file "
+                         "with exit code 4 ('the program code must be fixed')" % (short, item.origin[2], origin_function),
+                         {"chain": _chain_text(item)})
+        else:
+            ctx.res.ok("O10.main", what, True)
 
 
 def rule_oserror_stays_oserror(ctx):
@@ -308,4 +371,4 @@ def rule_field_rows(ctx):
 
 from .common import rule_module_state  # noqa: E402
 
-RULES = [rule_escapes, rule_oserror_stays_oserror, rule_range_constructors, rule_setters, rule_field_rows, rule_delimited_error_helper, rule_definite_assignment, rule_module_state]
+RULES = [rule_escapes, rule_main_mapping, rule_oserror_stays_oserror, rule_range_constructors, rule_setters, rule_field_rows, rule_delimited_error_helper, rule_definite_assignment, rule_module_state]
